@@ -329,7 +329,7 @@ pub fn witness(out: &HistoryOutcome, seed: u64, idx: u64, extra: serde_json::Val
 async fn one_case(report: &Report, seed: u64, idx: u64, thorough: bool) {
     let (spec, class, no_retry) = gen_case(seed, idx, thorough);
     let t0 = std::time::Instant::now();
-    let out = match run_history(&spec, Duration::from_secs(40)).await {
+    let out = match run_history(&spec, WATCHDOG).await {
         Ok(o) => o,
         Err(e) => {
             report.count("setup_failures", 1);
@@ -440,7 +440,7 @@ fn selftest(args: &Args) -> i32 {
     let mut tried = [0u32; 3];
     for idx in 0..30u64 {
         let (spec, _, _) = gen_case(args.seed, idx, false);
-        let Ok(out) = rt.block_on(run_history(&spec, Duration::from_secs(40))) else { continue };
+        let Ok(out) = rt.block_on(run_history(&spec, WATCHDOG)) else { continue };
         let clean = rt.block_on(check_serial(&out, None));
         if !clean.findings.is_empty() || clean.harness_error.is_some() || clean.commit_order.is_empty() {
             continue;
